@@ -44,17 +44,21 @@ def _run_case(args) -> Dict[str, Any]:
     if _BASE is None or _BASE.repo != repo:
         _BASE = Program(repo)
     base = _BASE
-    m = base.modules.get(rel[:-3].replace("/", "."))
-    if m is None:
-        return {"id": cid, "kind": kind, "status": "stale", "why": f"{rel} missing"}
-    edits = [(old, new)] if isinstance(old, str) else list(old)
-    text = m.src
-    for o, nw in edits:
+    # a case may edit several files: rel None and edits given as (rel, old, new) triples
+    triples = [(rel, o, nw) for o, nw in ([(old, new)] if isinstance(old, str) else list(old))] if rel is not None else list(old)
+    texts: Dict[str, str] = {}
+    for r, o, nw in triples:
+        m = base.modules.get(r[:-3].replace("/", "."))
+        if m is None:
+            return {"id": cid, "kind": kind, "status": "stale", "why": f"{r} missing"}
+        text = texts.get(r, m.src)
         if text.count(o) != 1:
             return {"id": cid, "kind": kind, "status": "stale", "why": f"anchor occurs {text.count(o)}x: {o[:40]!r}"}
-        text = text.replace(o, nw)
+        texts[r] = text.replace(o, nw)
     try:
-        prog = base.with_override(rel, text)
+        prog = base
+        for r, text in texts.items():
+            prog = prog.with_override(r, text)
         b, _ = _viol(prop, base)
         v, ctx = _viol(prop, prog)
     except AnalysisError as e:
